@@ -499,7 +499,18 @@ impl HttpRequest for HHttp {
             match outcome {
                 HttpOutcome::Fail { kind, dw, dm } => {
                     h.tick((dw, dm));
-                    Err(match kind { 'u' => mock_errors::make_user_error(), 'o' => HttpError::new_timeout(), _ => mock_errors::make_transport_error() })
+                    // every other failure is a genuine hyper error converted the way an HttpRequest implementation converts it:
+                    // an aborted body write is hyper's caller error, a failing body stream a transport error
+                    let real = h.next_gate % 2 == 0;
+                    Err(match kind {
+                        'u' if real => { let (tx, body) = hyper::Body::channel(); tx.abort();
+                            HttpError::from(futures::FutureExt::now_or_never(hyper::body::to_bytes(body)).expect("ready").expect_err("aborted")) }
+                        'u' => mock_errors::make_user_error(),
+                        'o' => HttpError::new_timeout(),
+                        _ if real => { let body = hyper::Body::wrap_stream(futures::stream::once(async { Err::<Vec<u8>, std::io::Error>(std::io::Error::new(std::io::ErrorKind::ConnectionReset, "reset")) }));
+                            HttpError::from(futures::FutureExt::now_or_never(hyper::body::to_bytes(body)).expect("ready").expect_err("failing stream")) }
+                        _ => mock_errors::make_transport_error(),
+                    })
                 }
                 HttpOutcome::Resp { status, retry_after, body: rbody, authentic, forgery, dw, dm } => {
                     h.tick((dw, dm));
